@@ -427,6 +427,24 @@ func runC13(c *Ctx) {
 					continue
 				}
 			}
+			// an early exit of the whole operation (misuse reported, nothing installed) is not a skipped target
+			other := hb.Succs[0]
+			if cf.Val {
+				other = hb.Succs[1]
+			}
+			if !blockReach(other, nil)[s.in.Block()] {
+				leavesOnly := true
+				for ob := range blockReach(other, nil) {
+					for _, oin := range ob.Instrs {
+						if staticCallee(oin) == invoke {
+							leavesOnly = false
+						}
+					}
+				}
+				if leavesOnly {
+					continue
+				}
+			}
 			r.Check("R13.3", FuncName(s.fn), fmt.Sprintf("%s %s is fired unconditionally for its target", s.role, s.time), s.in.Pos(), false, "guarded by "+cf.Cond.String()+": some targets would be skipped")
 		}
 	}
